@@ -383,10 +383,24 @@ def check_struct(cx, fn, rep, facts):
     f = fns[0]
     st = f['block']['stmts']
     ms = marker_stmts(st)
-    if not (len(st) == 2 and len(ms) == 1 and ms[0][0] == 0 and st[1]['k'] == 'Expr' and not st[1]['semi'] and es(st[1]['expr']) == 'builder.finish()'):
+    # `<builder statements> builder.finish()`: the statements come from one stream, or from several interpolated one after the other
+    # (builder creation first, then the per-field statements)
+    if not (len(st) >= 2 and len(ms) == len(st) - 1 and [m_[0] for m_ in ms] == list(range(len(st) - 1)) and st[-1]['k'] == 'Expr' and not st[-1]['semi']
+            and es(st[-1]['expr']) == 'builder.finish()'):
         S.bad('SUM-DEBUG', 'struct-body', 'the body of fmt is not `<builder statements> builder.finish()`', site)
         return
-    sites = S.kids(site, ms[0][1])
+    sites = []
+    per_marker = []
+    for m_ in ms:
+        ks_ = S.kids(site, m_[1])
+        per_marker.append(ks_)
+        sites += ks_
+    if len(ms) > 1:
+        fld_idx = set(i_ for i_, ks_ in enumerate(per_marker) for s_ in ks_ if S.field_loop(S.atoms(s_))[0] is not None)
+        pre_idx = set(i_ for i_, ks_ in enumerate(per_marker) for s_ in ks_ if S.field_loop(S.atoms(s_))[0] is None)
+        if len(fld_idx) > 1 or (fld_idx and pre_idx and max(pre_idx) > min(fld_idx)):
+            S.bad('SUM-DEBUG', 'struct-body', 'the per-field statements are spread over several interpolated streams, or a builder statement follows them', site)
+            return
     # case atoms
     NF = None
     NS = None
@@ -487,7 +501,11 @@ def check_name_string(S, nst, V):
         return 'with both names shown the printed name is not `Enum::Variant`'
     if not (isinstance(only_enum, tuple) and only_enum[0] == 'Some' and only_enum[1] == ('mcall', ('mcall', ('some_of', NAME), 'into_token_stream'), 'to_string')):
         return 'with only the enum name shown the printed name is not the enum name'
-    if not (isinstance(b, tuple) and b[0] == 'mcall' and b[2] == 'map' and b[1] == VNAME):
+    to_string_of = lambda X: ('mcall', ('mcall', ('some_of', X), 'into_token_stream'), 'to_string')
+    map_form = isinstance(b, tuple) and b[0] == 'mcall' and b[2] == 'map' and b[1] == VNAME
+    iflet_form = (isinstance(b, tuple) and b[0] == 'iflet' and b[1].startswith('Some(') and b[2] == VNAME and b[4] in (('None',), VNAME)
+                  and b[3] == ('Some', to_string_of(VNAME)))
+    if not (map_form or iflet_form):
         return 'without an enum name the printed name is not the variant name (if any)'
     return True
 
